@@ -283,7 +283,37 @@ def run_mode_walk(job):
     return (None, None)
 
 
+def run_zoneless(gen):
+    """An installation whose second air-conditioner owns no zones at all (a ducted unit without dampers): its status,
+    timer and error frames count like anybody's."""
+    inst = console.default_installation(gen, 2, (2, 0))
+    w = apiworld.ApiWorld(gen, inst, auto=True)
+    r = w.init_now(0.0)
+    if not (r and r[1] is True):
+        return 1, (f"at{gen}:zoneless:init", f"at{gen}: init() against an installation with a zone-less AC: {r}")
+    w.loop.settle()
+    n = 0
+    msg = check_view(w, f"at{gen} zone-less AC after init")
+    if msg:
+        return 1, (f"at{gen}:zoneless:init", msg)
+    c = w.console
+    for k, mode in enumerate(MODES):
+        c.state["ac"][1].update({"mode": mode, "power": "on" if k % 2 else "off", "error": 4 if k % 3 == 0 else 0})
+        c.state["error"][1] = "ER: 04" if k % 3 == 0 else None
+        for step in ("ac", "timer", "all-acs"):
+            if step == "timer":
+                c.state["timer"][1]["on"].update({"disabled": bool(k % 2), "hour": (5 + k) % 24, "minute": 10})
+            push(w, {"ac": lambda: c.ac_status_frame(only=[1]), "timer": c.timer_status_frame, "all-acs": c.ac_status_frame}[step]())
+            n += 1
+            msg = check_view(w, f"at{gen} zone-less AC 1, step {k} ({mode})")
+            if msg:
+                return n, (f"at{gen}:zoneless:{mode}", msg)
+    return n, None
+
+
 def replay_input(rp):
+    if rp["what"] == "zoneless":
+        return (run_zoneless(rp["gen"])[1] or (None, None))[1]
     if rp["what"] == "mode-walk":
         return run_mode_walk((rp["gen"], tuple(rp["seq"])))[1]
     if rp["what"] == "single":
@@ -321,6 +351,11 @@ def run(tier, seed, part=None):
             outcomes.add(snap if isinstance(snap, str) else "violation")
             if sig:
                 chk.violation(sig, msg, {"kind": "input", "module": "pvmc.props.c10", "what": "history", "gen": gen, "seq": list(s), "batch": bool(mode)})
+        nz, viol = run_zoneless(gen)
+        total += nz
+        chk.parts.append({"scenario": f"at{gen}/zone-less-ac", "frames": nz})
+        if viol:
+            chk.violation(viol[0], viol[1], {"kind": "input", "module": "pvmc.props.c10", "what": "zoneless", "gen": gen})
         walks = [(gen, s) for d in range(1, depth + 1) for s in itertools.product(MODES, repeat=d)]
         for (g, sq), (sig, msg) in zip(walks, explorer.pool().map(run_mode_walk, walks, chunksize=16)):
             total += len(sq)
